@@ -41,6 +41,14 @@ CHECKS = {
               "by exhaustive numeric evaluation over the operand grid and is reported as bounded, not counted as proved."),
         technique="contract-based deductive verification: symbolic execution of the real transpiler + exact cyclotomic operator identities; z3 LIA for rotation operands; numeric exhaustive stand-in for to_matrix",
         design_ref="5.C07"),
+    "C20": dict(
+        category="proof",
+        text=("toffoli_gate, t_inverse and parity_meas (every Pauli string of length 1..3, with and without sign: the statement's finite domain, "
+              "enumerated) are run on the real SDK builder and the emitted gate lists decided by exact operator algebra: Toffoli up to phase, "
+              "T^7 = T^dagger, Kraus operators of the parity measurement equal the parity projectors for arbitrary input states, returned handle holds "
+              "parity xor sign. set_qubit_state: z3 NRA spec lemma + bounded emission check. Not claimed: an external state-vector back end."),
+        technique="contract-based deductive verification: real toolbox/builder code executed to gate lists, exact cyclotomic operator identities (Kraus operators), z3 NRA lemma; bounded emission sampling for set_qubit_state",
+        design_ref="5.C20"),
     "C19": dict(
         category="proof",
         text=("Loop-invariant proof of get_angle_spec_from_float over the reals for every angle and every tolerance in [1e-9, 1]: the real loop "
